@@ -10,10 +10,12 @@ META = {
                  "+ anchors extracted from validate()'s source text + boundary-exhaustive model/implementation "
                  "correspondence at the three entry points",
     "text": "Kernel-checked theorems over the Gallina model of FontInfo::validate and its three entry points "
-            "(validate, Font::save, Font::load of a fontinfo.plist): for ALL font infos the model accepts iff the "
+            "(validate, Font::save, Font::load of a format-3 fontinfo.plist; the format-2 and format-1 loaders are "
+            "run as well): for ALL font infos the model accepts iff the "
             "declarative specification fi_spec holds (date shape and field ranges, gasp order, identifier "
             "uniqueness, angle range incl. NaN/inf, selection bits, family class, list lengths/parity, WOFF "
-            "non-emptiness); a loaded or saved info always satisfies it; the typed deserialisers are characterised. "
+            "non-emptiness); a loaded or saved info always satisfies it; a refused save is always refused by "
+            "validate() (never late in the serialiser: finding F9 is gone); the typed deserialisers are characterised. "
             "The model is tied to the code on every run by constants and rule order extracted from validate()'s "
             "source and by running implementation and model on a boundary-exhaustive case set at all three entry "
             "points, comparing verdict, error kind (with its payload) and the resulting info.",
@@ -303,17 +305,21 @@ def run(ctx, known, built):
         c = v["case"]
         return (sum(1 for x in c.values() if x not in (None, [], False)) + sum(1 for x in c["lists"] if x is not None)
                 + sum(1 for x in c["wsimple"] if x is not None), len(json.dumps(c)))
-    ctx.violations.sort(key=size)
-    ctx.disagreements.sort(key=lambda v: size(v) if "case" in v else (0, 0))
+    # corpus witnesses first, then the smallest case
+    ctx.violations.sort(key=lambda v: (not v["label"].startswith("corpus "),) + size(v))
+    ctx.disagreements.sort(key=lambda v: ((not v["label"].startswith("corpus "),) + size(v)) if "case" in v else (False, 0, 0))
     ctx.obligation("correspondence:C13 (%d shards)" % len(files), ok_shards == len(files) and not ctx.disagreements,
                    "model and implementation differ")
     total = summ["cases"]
     ctx.cov.update({
         "evaluations": total + 2 * summ["with_in_memory_value"] + summ["through_format2_loader"] + summ["through_format1_lib_loader"],
-        "distinct_nontrivial": total - 1,
+        "distinct_nontrivial": len({json.dumps(m["case"], sort_keys=True) for m in meta
+                                    if any(v not in (None, [], False) and v != [None] * 6 and v != [None] * 4
+                                           for v in m["case"].values())}),
         "rule": "cases = rule-relevant contents of a fontinfo.plist; each is run through FontInfo::validate and Font::save "
-                "(when the Rust types admit an in-memory value) and through Font::load of a harness-written file, and "
-                "through the Coq model; verdict, error kind with payload, and the resulting info (validated / read back "
+                "(when the Rust types admit an in-memory value), through Font::load of a harness-written format-3 file, "
+                "through the format-2 loader (when only format-2 fields are used) and the format-1 lib.plist hint-data "
+                "loader (when only the PostScript lists are used), and through the Coq model; verdict, error kind with payload, and the resulting info (validated / read back "
                 "from the written file as an untyped plist / loaded) are compared. Boundary-exhaustive part: every list "
                 "length 0..16 for the six PostScript lists; three valid dates x 19 positions x 14 bytes, multi-byte "
                 "characters, every date field at and around its bounds and their products, length variations; all 256 "
